@@ -301,6 +301,9 @@ func (e *denv) judgePackets(idx int, ops []*Op, pk []authsim.Packet) {
 			r.Count("d_sink_packets", 1)
 			continue
 		}
+		if dns.IsSubDomain(dBarrierZone, p.QNameL) {
+			continue // the harness's own sentinel
+		}
 		if p.ParseErr != "" || !e.w.inNamespace(p.QNameL) {
 			r.Count("d_stray_packets_ignored", 1)
 			continue
